@@ -490,6 +490,24 @@ def exhaustive_small(ctx: Ctx):
                     ctx.stop = True
                     return
     ctx.rec.count("exhaustive_partitions_enumerated", idx if ctx.shard == 0 else 0)
+    # StatusMonitor with two-digit stage indices and pairwise different weights (k / (1+2+..+n)), on every run
+    for n in (10, 11, 12, 13):
+        if n % ctx.nshards != ctx.shard or ctx.stop:
+            continue
+        den = n * (n + 1) // 2
+        case = {"weights": [{"t": "dec", "num": k, "den": den, "form": "float"} for k in range(1, n + 1)],
+                "current": n - 1, "roles": {str(i): "finished" for i in range(n - 1)}, "progress": [1.0] * n}
+        ctx.rec.evaluations += 1
+        try:
+            check_monitor(case, ctx)
+        except Violation as v:
+            if v.sig in ctx.excluded:
+                ctx.rec.excluded[v.sig] += 1
+                continue
+            v.case, v.sub = case, "monitor"
+            ctx.rec.violations.append(v.to_dict())
+            ctx.stop = True
+            return
     # every stage count up to 160 with no weights given / with equal weights 1/n (the fallback arithmetic depends on n)
     for n in range(1, 161):
         if n % ctx.nshards != ctx.shard:
